@@ -216,6 +216,9 @@ def correspondences(tier, rng):
         if pts and rng.chance(15): pts[0] = 0 if pts[0] > 0 and 0 not in pts else pts[0]
         return sorted(set(pts))
     pcases = [gen_points() for _ in range(n // 2)]
+    # counts around the 7-bit and 15-bit limits of the count field
+    for cnt in (127, 128, 129, 255, 256, 32767, 32768, 40000):
+        pcases.append(list(range(3, 3 + cnt)))
     def oracle_points(pts):
         try: b = bytes(TV.compilePoints(set(pts)))
         except ValueError: return None
